@@ -176,8 +176,8 @@ Proof. unfold hsusp. by destruct (jobs s). Qed.
 
 Ltac solve_toks :=
   rewrite ?toks_setstack;
-  rewrite ?toks_addlog, ?toks_setf, ?toks_setev, ?toks_setdw, ?toks_setdbl, ?toks_setsres;
-  rewrite ?toks_addlog, ?toks_setf, ?toks_setev, ?toks_setdw, ?toks_setdbl, ?toks_setsres;
+  rewrite ?toks_addlog, ?toks_setf, ?toks_setev, ?toks_setdw, ?toks_setdbl, ?toks_setsres, ?toks_setkick, ?toks_kickall;
+  rewrite ?toks_addlog, ?toks_setf, ?toks_setev, ?toks_setdw, ?toks_setdbl, ?toks_setsres, ?toks_setkick, ?toks_kickall;
   reflexivity.
 
 Lemma queue_ok_owned s : owned s.(qs) = true -> queue_ok s = true.
